@@ -136,56 +136,82 @@ func (p Payload) AppendTrail(entry string) {
 	v.Slice().AppendEmpty().SetStr(entry)
 }
 
-// Mutate applies the unique mutation of the named mutator: a marker attribute on the first resource
-// and on its last scope, a changed leaf and one appended leaf item carrying the marker.
+// Mutate applies the unique mutation of the named mutator. It works on any payload shape, also on
+// item-less and completely empty ones: it makes sure a resource and a scope exist (appending them when
+// missing), puts a marker attribute on the first resource, changes the name of that resource's last
+// scope (and puts a marker attribute on it), changes the first metric's name / the first item, and
+// appends one leaf item carrying the marker.
 func (p Payload) Mutate(name string) {
 	mk := MarkPrefix + name + ";"
-	p.Attrs().PutStr(mk, "x")
 	switch p.Signal {
 	case Logs:
+		if p.l.ResourceLogs().Len() == 0 {
+			p.l.ResourceLogs().AppendEmpty()
+		}
 		rl := p.l.ResourceLogs().At(0)
+		rl.Resource().Attributes().PutStr(mk, "x")
 		if rl.ScopeLogs().Len() == 0 {
 			rl.ScopeLogs().AppendEmpty()
 		}
 		sl := rl.ScopeLogs().At(rl.ScopeLogs().Len() - 1)
+		sl.Scope().SetName(sl.Scope().Name() + mk)
 		sl.Scope().Attributes().PutStr(mk, "x")
 		if sl.LogRecords().Len() > 0 {
 			sl.LogRecords().At(0).Attributes().PutStr(mk, "x")
 		}
 		sl.LogRecords().AppendEmpty().Body().SetStr(mk)
 	case Traces:
+		if p.t.ResourceSpans().Len() == 0 {
+			p.t.ResourceSpans().AppendEmpty()
+		}
 		rs := p.t.ResourceSpans().At(0)
+		rs.Resource().Attributes().PutStr(mk, "x")
 		if rs.ScopeSpans().Len() == 0 {
 			rs.ScopeSpans().AppendEmpty()
 		}
 		ss := rs.ScopeSpans().At(rs.ScopeSpans().Len() - 1)
+		ss.Scope().SetName(ss.Scope().Name() + mk)
 		ss.Scope().Attributes().PutStr(mk, "x")
 		if ss.Spans().Len() > 0 {
 			ss.Spans().At(0).Events().AppendEmpty().SetName(mk)
 		}
 		ss.Spans().AppendEmpty().SetName(mk)
 	case Metrics:
+		if p.m.ResourceMetrics().Len() == 0 {
+			p.m.ResourceMetrics().AppendEmpty()
+		}
 		rm := p.m.ResourceMetrics().At(0)
+		rm.Resource().Attributes().PutStr(mk, "x")
 		if rm.ScopeMetrics().Len() == 0 {
 			rm.ScopeMetrics().AppendEmpty()
 		}
 		sm := rm.ScopeMetrics().At(rm.ScopeMetrics().Len() - 1)
+		sm.Scope().SetName(sm.Scope().Name() + mk)
 		sm.Scope().Attributes().PutStr(mk, "x")
 		if sm.Metrics().Len() > 0 {
-			sm.Metrics().At(0).SetDescription(mk)
+			m0 := sm.Metrics().At(0)
+			m0.SetName(m0.Name() + mk)
+			m0.SetDescription(mk)
 		}
 		nm := sm.Metrics().AppendEmpty()
 		nm.SetName(mk)
 		nm.SetEmptySum().DataPoints().AppendEmpty().SetIntValue(1)
 	default:
+		if p.p.ResourceProfiles().Len() == 0 {
+			p.p.ResourceProfiles().AppendEmpty()
+		}
 		rp := p.p.ResourceProfiles().At(0)
+		rp.Resource().Attributes().PutStr(mk, "x")
 		if rp.ScopeProfiles().Len() == 0 {
 			rp.ScopeProfiles().AppendEmpty()
 		}
 		sp := rp.ScopeProfiles().At(rp.ScopeProfiles().Len() - 1)
+		sp.Scope().SetName(sp.Scope().Name() + mk)
 		sp.Scope().Attributes().PutStr(mk, "x")
 		if sp.Profiles().Len() > 0 {
-			sp.Profiles().At(0).StringTable().Append(mk)
+			p0 := sp.Profiles().At(0)
+			p0.SetOriginalPayloadFormat(p0.OriginalPayloadFormat() + mk)
+			p0.StringTable().Append(mk)
 		}
 		np := sp.Profiles().AppendEmpty()
 		np.SetOriginalPayloadFormat(mk)
@@ -491,4 +517,126 @@ func (n Next) Consume(ctx context.Context, p Payload) error {
 	default:
 		return n.p.ConsumeProfiles(ctx, p.p)
 	}
+}
+
+// PayloadShapes are the shapes NewShapedPayload builds. Only "items" carries leaf items (log records,
+// spans, data points, samples); the others are the item-less payloads a pipeline can legally see:
+//
+//	items          what NewPayload builds
+//	empty          no resource at all (cannot carry tag / trail)
+//	resource-only  resources with attributes (and schema URL) but no scope
+//	scope-only     resources and named scopes with attributes, no item
+//	container-only metrics: named metrics (gauge / sum / histogram …) without data points; profiles:
+//	               profiles without samples; logs and traces have no such level: same as scope-only
+var PayloadShapes = []string{"items", "empty", "resource-only", "scope-only", "container-only"}
+
+// NewShapedPayload builds a payload of the given shape. Tag and trail of msg are stored on the first
+// resource (all shapes except "empty").
+func NewShapedPayload(sig Signal, shape string, msg Msg, rng *rand.Rand) Payload {
+	if shape == "items" || shape == "" {
+		return NewPayload(sig, msg, rng)
+	}
+	n := func(max int) int {
+		if rng == nil {
+			return 1
+		}
+		return 1 + rng.Intn(max)
+	}
+	seq := 0
+	next := func() string { seq++; return fmt.Sprintf("%s.%d", msg.Tag, seq) }
+	var p Payload
+	switch sig {
+	case Logs:
+		p = OfLogs(plog.NewLogs())
+	case Traces:
+		p = OfTraces(ptrace.NewTraces())
+	case Metrics:
+		p = OfMetrics(pmetric.NewMetrics())
+	default:
+		p = OfProfiles(pprofile.NewProfiles())
+	}
+	if shape == "empty" {
+		return p
+	}
+	for r, nres := 0, n(3); r < nres; r++ {
+		nscopes := 0
+		if shape != "resource-only" {
+			nscopes = n(2)
+		}
+		switch sig {
+		case Logs:
+			rl := p.l.ResourceLogs().AppendEmpty()
+			fillAttrs(rl.Resource().Attributes(), rng, next())
+			rl.SetSchemaUrl("https://schema/" + next())
+			for i := 0; i < nscopes; i++ {
+				sc := rl.ScopeLogs().AppendEmpty().Scope()
+				sc.SetName(next())
+				fillAttrs(sc.Attributes(), rng, next())
+			}
+		case Traces:
+			rs := p.t.ResourceSpans().AppendEmpty()
+			fillAttrs(rs.Resource().Attributes(), rng, next())
+			rs.SetSchemaUrl("https://schema/" + next())
+			for i := 0; i < nscopes; i++ {
+				sc := rs.ScopeSpans().AppendEmpty().Scope()
+				sc.SetName(next())
+				fillAttrs(sc.Attributes(), rng, next())
+			}
+		case Metrics:
+			rm := p.m.ResourceMetrics().AppendEmpty()
+			fillAttrs(rm.Resource().Attributes(), rng, next())
+			rm.SetSchemaUrl("https://schema/" + next())
+			for i := 0; i < nscopes; i++ {
+				sm := rm.ScopeMetrics().AppendEmpty()
+				sm.Scope().SetName(next())
+				fillAttrs(sm.Scope().Attributes(), rng, next())
+				if shape != "container-only" {
+					continue
+				}
+				for k, nm := 0, n(3); k < nm; k++ {
+					m := sm.Metrics().AppendEmpty()
+					m.SetName(next())
+					m.SetUnit("u")
+					m.SetDescription(next())
+					switch k % 5 {
+					case 0:
+						m.SetEmptyGauge()
+					case 1:
+						m.SetEmptySum().SetIsMonotonic(true)
+					case 2:
+						m.SetEmptyHistogram().SetAggregationTemporality(pmetric.AggregationTemporalityDelta)
+					case 3:
+						m.SetEmptyExponentialHistogram()
+					default:
+						m.SetEmptySummary()
+					}
+				}
+			}
+		default:
+			rp := p.p.ResourceProfiles().AppendEmpty()
+			fillAttrs(rp.Resource().Attributes(), rng, next())
+			rp.SetSchemaUrl("https://schema/" + next())
+			for i := 0; i < nscopes; i++ {
+				sp := rp.ScopeProfiles().AppendEmpty()
+				sp.Scope().SetName(next())
+				fillAttrs(sp.Scope().Attributes(), rng, next())
+				if shape != "container-only" {
+					continue
+				}
+				for k, np := 0, n(3); k < np; k++ {
+					pr := sp.Profiles().AppendEmpty()
+					pr.SetProfileID(pprofile.ProfileID{byte(r + 1), byte(i + 1), byte(k + 1)})
+					pr.SetOriginalPayloadFormat(next())
+					pr.StringTable().Append("", next())
+				}
+			}
+		}
+	}
+	a := p.Attrs()
+	a.PutStr(AttrTag, msg.Tag)
+	tr := a.PutEmptySlice(AttrTrail)
+	for _, e := range msg.Trail {
+		tr.AppendEmpty().SetStr(e)
+	}
+	return p
 }
